@@ -2,6 +2,7 @@
 CONSTANTS
   ColMode = "bytes"
   EolEntry = TRUE
+  SymLineMap = "keep"
   PredictMaxSyms = 40
 INIT Init
 NEXT Next
